@@ -382,6 +382,9 @@ def e2_witnesses(tier):
     add("e2_minimize", "const SO3d* target, SO3d* x, double* out",
         "  auto f = [&](const auto & g) -> Eigen::Vector3d { return g - *target; };\n"
         "  const auto res = minimize(f, wrt(*x));\n  out[0] = double(res.iter);\n", [0])
+    add("e2_minimize_shared_opts", "const SO3d* target, const MinimizeOptions* opts, SO3d* x, double* out",
+        "  auto f = [&](const auto & g) -> Eigen::Vector3d { return g - *target; };\n"
+        "  const auto res = minimize(f, wrt(*x), *opts);\n  out[0] = double(res.iter);\n", [0, 1])
     add("e2_fit", "const std::vector<double>* ts, const std::vector<SO3d>* gs, Spline<3, SO3d>* out",
         "  *out = fit_spline(*ts, *gs, spline_specs::FixedDerCubic<SO3d, 2>{});\n", [0, 1])
     return ws
